@@ -11,6 +11,11 @@ runner output (any results, any order — the runner is a parameter of the model
   routing_retries_exact      retries = the producing payloads, for any selection/permutation of results
   routing_order_independent  permuting the runner's output permutes nothing but the order of the calls
   retryOld_*                 the pinned tree's positional pairing retries the wrong payload (witness)
+  routing_retries_safe / routing_retries_count   for runs OUTSIDE the pipeline's contract too (unknown work ids,
+                             more results than payloads): only payloads of the run are retried, with a failure's
+                             interval, and exactly `retryCount` of them; retry_fallback_beyond / _position
+  proposalsTick_no_empty / _keeps / _nil_or_error, sourceTick_cases, tick_error_routes_nothing,
+  no_source_routes_nothing, checked_spec   the tick getters: nil source, failing Dequeue / builder, empty payloads
 
 Part B (retry queue) is about every sequence of enqueues and dequeues, every iteration order of the
 queue's map and every clock reading — no bounds anywhere (`Reach`); the two clauses that need the Go
@@ -148,6 +153,145 @@ private theorem retry_justified (ps : List Payload) (rs : List Res) (e : RetryRe
 private theorem isPerm_self {α : Type} [BEq α] [LawfulBEq α] (l : List α) : l.isPerm l = true :=
   List.isPerm_iff.mpr (List.Perm.refl l)
 
+/-! ### the retry sink of EVERY run — the pipeline's contract kept or not -/
+
+/-- whatever the runner returned (any number of results, any work ids): each record the retry post-processor
+enqueues holds a payload OF THE RUN and the interval of a retryable failure of the run -/
+theorem retryLoop_mem (ps : List Payload) (rs : List Res) (i : Nat) (e : RetryRecord) (he : e ∈ retryLoop ps i rs) :
+    e.payload ∈ ps ∧ ∃ r ∈ rs, r.retryableFail = true ∧ r.retryInterval = e.interval := by
+  induction rs generalizing i with
+  | nil => simp [retryLoop] at he
+  | cons r rs ih =>
+    have lift : (e ∈ retryLoop ps (i + 1) rs) →
+        e.payload ∈ ps ∧ ∃ r' ∈ r :: rs, r'.retryableFail = true ∧ r'.retryInterval = e.interval := by
+      intro h
+      obtain ⟨h1, r', hr', h2⟩ := ih _ h
+      exact ⟨h1, r', List.mem_cons_of_mem _ hr', h2⟩
+    unfold retryLoop at he
+    by_cases hr : r.retryableFail = true
+    · simp only [hr, if_true] at he
+      cases hm : matchPayload ps r.cr with
+      | some p =>
+        simp only [hm, List.mem_cons] at he
+        rcases he with he | he
+        · subst he
+          exact ⟨(matchPayload_spec hm).1, r, List.mem_cons_self, hr, rfl⟩
+        · exact lift he
+      | none =>
+        simp only [hm] at he
+        cases hg : ps[i]? with
+        | some p =>
+          simp only [hg, List.mem_cons] at he
+          rcases he with he | he
+          · subst he
+            exact ⟨List.mem_of_getElem? hg, r, List.mem_cons_self, hr, rfl⟩
+          · exact lift he
+        | none =>
+          simp only [hg] at he
+          exact lift he
+    · simp only [hr] at he
+      exact lift he
+
+/-- … and there is at most one record per retryable failure -/
+theorem retryLoop_length (ps : List Payload) (rs : List Res) (i : Nat) :
+    (retryLoop ps i rs).length ≤ (rs.filter (·.retryableFail)).length := by
+  induction rs generalizing i with
+  | nil => simp [retryLoop]
+  | cons r rs ih =>
+    unfold retryLoop
+    by_cases hr : r.retryableFail = true
+    · simp only [hr, if_true, List.filter_cons_of_pos, List.length_cons]
+      cases matchPayload ps r.cr with
+      | some p => simpa using ih (i + 1)
+      | none =>
+        cases ps[i]? with
+        | some p => simpa using ih (i + 1)
+        | none => exact Nat.le_succ_of_le (ih (i + 1))
+    · simpa [hr] using ih (i + 1)
+
+/-- a retryable failure whose work id NO payload carries, at a position past the payload list (the runner returned
+more results than it was given payloads): nothing is enqueued for it (`if i >= len(payloads) { continue }`) -/
+theorem retry_fallback_beyond (ps : List Payload) (i : Nat) (r : Res) (rest : List Res)
+    (hnone : ∀ p ∈ ps, p.workID ≠ r.cr.workID) (hi : ps.length ≤ i) :
+    retryLoop ps i (r :: rest) = retryLoop ps (i + 1) rest := by
+  have hc : candidates ps r.cr.workID = [] := by
+    simp only [candidates, List.filter_eq_nil_iff, decide_eq_true_eq]
+    exact fun p hp => hnone p hp
+  have hg : ps[i]? = none := List.getElem?_eq_none hi
+  conv => lhs; unfold retryLoop
+  by_cases hr : r.retryableFail = true <;> simp [hr, matchPayload, hc, hg]
+
+/-- … and within the payload list the payload AT THAT POSITION is retried (the positional fallback) -/
+theorem retry_fallback_position (ps : List Payload) (i : Nat) (r : Res) (rest : List Res) (p : Payload)
+    (hnone : ∀ p ∈ ps, p.workID ≠ r.cr.workID) (hp : ps[i]? = some p) (hr : r.retryableFail = true) :
+    retryLoop ps i (r :: rest) = { payload := p, interval := r.retryInterval } :: retryLoop ps (i + 1) rest := by
+  have hc : candidates ps r.cr.workID = [] := by
+    simp only [candidates, List.filter_eq_nil_iff, decide_eq_true_eq]
+    exact fun p hp => hnone p hp
+  conv => lhs; unfold retryLoop
+  simp [hr, matchPayload, hc, hp]
+
+private theorem matchPayload_isSome_eq_carried (ps : List Payload) (r : Res) :
+    (matchPayload ps r.cr).isSome = carried ps r := by
+  cases hc : carried ps r with
+  | true =>
+    obtain ⟨p, hp⟩ := matchPayload_some_of_carried hc
+    simp [hp]
+  | false =>
+    cases hm : matchPayload ps r.cr with
+    | none => rfl
+    | some p =>
+      obtain ⟨h1, h2, _⟩ := matchPayload_spec hm
+      have : carried ps r = true := by
+        simp only [carried, List.any_eq_true, decide_eq_true_eq]
+        exact ⟨p, h1, h2⟩
+      simp [hc] at this
+
+/-- the retry post-processor enqueues exactly `retryCount` records, whatever the runner returned -/
+theorem retryLoop_count (ps : List Payload) (rs : List Res) (i : Nat) :
+    (retryLoop ps i rs).length = retryCount ps i rs := by
+  induction rs generalizing i with
+  | nil => simp [retryLoop, retryCount]
+  | cons r rs ih =>
+    unfold retryLoop retryCount
+    by_cases hr : r.retryableFail = true
+    · have hc := matchPayload_isSome_eq_carried ps r
+      cases hm : matchPayload ps r.cr with
+      | some p =>
+        have : carried ps r = true := by simpa [hm] using hc.symm
+        simp [hr, this, ih (i + 1), Nat.add_comm]
+      | none =>
+        have hcf : carried ps r = false := by simpa [hm] using hc.symm
+        by_cases hi : i < ps.length
+        · simp [hr, hcf, hi, ih (i + 1), Nat.add_comm]
+        · simp [hr, hcf, hi, ih (i + 1)]
+    · simp [hr, ih (i + 1)]
+
+/-- **routing_retries_count** — every run schedules exactly the retries it must: one per retryable failure that has
+a payload (by work id, or by position when no payload carries its work id), none for a retryable failure of an
+unknown work id past the payload list; no hypothesis on the runner's output -/
+theorem routing_retries_count (flow : Flow) (ue : CheckResult → Bool) (value : List Payload) (results : List Res) :
+    retriesCounted flow [(value, results)] (postProcess flow ue results value).retries = true := by
+  rw [routing_retries_source]
+  unfold retriesCounted
+  by_cases hf : flow.retries = true
+  · simp [hf, retryNew, retryLoop_count]
+  · simp [hf]
+
+/-- **routing_retries_safe** — "nothing else is retried", with no hypothesis on the runner's output -/
+theorem routing_retries_safe (flow : Flow) (ue : CheckResult → Bool) (value : List Payload) (results : List Res) :
+    retriesSafe flow value results (postProcess flow ue results value).retries = true := by
+  rw [routing_retries_source]
+  unfold retriesSafe
+  by_cases hf : flow.retries = true
+  · simp only [hf, if_true, retryNew, Bool.and_eq_true, List.all_eq_true, decide_eq_true_eq]
+    refine ⟨fun e he => ?_, retryLoop_length value results 0⟩
+    obtain ⟨h1, r, hr, h2, h3⟩ := retryLoop_mem value results 0 e he
+    refine ⟨by simpa using h1, ?_⟩
+    rw [List.any_eq_true]
+    exact ⟨r, hr, by simp [h2, h3]⟩
+  · simp [hf]
+
 /-- **routing_partition** — C12's routing clause as the decidable predicate the oracle evaluates on the real
 sinks, for every flow, every payload list and every runner output (any results in any order):
 staged = eligible successes; proposed = eligible successes (proposal flows); recorded ineligible =
@@ -157,7 +301,7 @@ nothing else anywhere. -/
 theorem routing_partition (flow : Flow) (ue : CheckResult → Bool) (value : List Payload) (results : List Res) :
     routingOk flow value results (postProcess flow ue results value) = true := by
   unfold routingOk stagedOk proposedOk ineligibleOk
-  rw [routing_staged, routing_proposed, routing_ineligible, isPerm_self, isPerm_self, isPerm_self]
+  rw [routing_staged, routing_proposed, routing_ineligible, isPerm_self, isPerm_self, isPerm_self, routing_retries_safe]
   simp only [Bool.and_self, Bool.true_and, Bool.or_eq_true, Bool.not_eq_true']
   by_cases hc : contractOk value results = true
   · right
@@ -258,6 +402,81 @@ theorem process_routes (flow : Flow) (ue : CheckResult → Bool) (tick : Option 
     cases preProcess pre v with
     | none => simp
     | some v' => cases h : runner v' <;> simp [h]
+
+/-! ### tick getters -/
+
+theorem skipEmpty_eq_filter (b : List Payload) : skipEmpty b = b.filter (fun p => !payloadEmpty p) := by
+  induction b with
+  | nil => rfl
+  | cons p ps ih => by_cases h : payloadEmpty p = true <;> simp [skipEmpty, h, ih]
+
+/-- a final flow's tick never carries an empty payload (`if p.IsEmpty() { continue }`) … -/
+theorem proposalsTick_no_empty {q : Option (Option (List Proposal))} {build : List Proposal → Option (List Payload)}
+    {v : List Payload} (h : proposalsTick q build = some v) : ∀ p ∈ v, payloadEmpty p = false := by
+  intro p hp
+  unfold proposalsTick at h
+  split at h
+  · cases h; simp at hp
+  · simp at h
+  · split at h
+    · simp at h
+    · cases h
+      rw [skipEmpty_eq_filter, List.mem_filter] at hp
+      simpa using hp.2
+
+/-- … and carries every other payload the builder returned, in the builder's order -/
+theorem proposalsTick_keeps (props : List Proposal) (build : List Proposal → Option (List Payload)) (built : List Payload)
+    (hb : build props = some built) :
+    proposalsTick (some (some props)) build = some (built.filter (fun p => !payloadEmpty p)) := by
+  simp [proposalsTick, hb, skipEmpty_eq_filter]
+
+/-- no queue: an empty tick, no error; a failing `Dequeue` or builder: an error -/
+theorem proposalsTick_nil_or_error (build : List Proposal → Option (List Payload)) (props : List Proposal) :
+    proposalsTick none build = some [] ∧ proposalsTick (some none) build = none ∧
+    (build props = none → proposalsTick (some (some props)) build = none) := by
+  refine ⟨rfl, rfl, fun h => ?_⟩
+  simp [proposalsTick, h]
+
+theorem sourceTick_cases (ps : List Payload) :
+    sourceTick none = some [] ∧ sourceTick (some none) = none ∧ sourceTick (some (some ps)) = some ps := ⟨rfl, rfl, rfl⟩
+
+/-- a tick whose getter failed (`Dequeue` error, builder error) routes nothing and is reported as failed -/
+theorem tick_error_routes_nothing (flow : Flow) (ue : CheckResult → Bool)
+    (pre : List (List Payload → Option (List Payload))) (runner : List Payload → Option (List Res)) :
+    process flow ue none pre runner = { sinks := {}, failed := true } := rfl
+
+/-- a flow built without a source (nil provider / nil queue): its ticks carry no payloads; with a runner that
+answers nothing to nothing, no sink is written and the tick is not a failure -/
+theorem no_source_routes_nothing (flow : Flow) (ue : CheckResult → Bool)
+    (pre : List (List Payload → Option (List Payload))) (runner : List Payload → Option (List Res))
+    (hpre : preProcess pre [] = some []) (hrun : runner [] = some []) :
+    process flow ue (sourceTick none) pre runner = { sinks := {}, failed := false } := by
+  have : postProcess flow ue [] [] = {} := by
+    cases flow <;> simp [postProcess, combine, Flow.chain, PP.run, retryNew, retryLoop]
+  simp [process, sourceTick, hpre, hrun, this]
+
+/-- **checked_spec** — over any sequence of final-flow ticks, what reaches the runner satisfies the oracle
+predicate `checkedOk`: never an empty payload, and exactly the builder's non-empty payloads the coordinator lets pass -/
+theorem checked_spec (keep : Payload → Bool) (built : List (List Payload)) :
+    checkedOk keep built (checkedOf keep built) = true := by
+  have heq : checkedOf keep built = (built.flatMap id).filter (fun p => !payloadEmpty p && keep p) := by
+    induction built with
+    | nil => rfl
+    | cons b bs ih =>
+      simp only [checkedOf, List.flatMap_cons, id, List.filter_append] at ih ⊢
+      rw [ih, skipEmpty_eq_filter, List.filter_filter]
+      congr 1
+      apply List.filter_congr
+      intro x _
+      exact Bool.and_comm _ _
+  unfold checkedOk
+  rw [Bool.and_eq_true]
+  refine ⟨?_, by rw [heq]; exact isPerm_self _⟩
+  rw [heq, List.all_eq_true]
+  intro p hp
+  have := (List.mem_filter.mp hp).2
+  simp only [Bool.and_eq_true] at this
+  exact this.1
 
 /-! ### the pinned tree's positional pairing (`payloads[i]`) -/
 
